@@ -4,7 +4,7 @@ import ast
 import re
 
 from ..pycfg import CFG, walk_no_nested
-from ..source import dict_key_writes, AnalysisError, find_function, find_class, first_line, src, functions, qualname, enclosing_function
+from ..source import truth, dict_key_writes, AnalysisError, find_function, find_class, first_line, src, functions, qualname, enclosing_function
 
 TR = "nemoguardrails/colang/v2_x/lang/transformer.py"
 SM = "nemoguardrails/colang/v2_x/runtime/statemachine.py"
@@ -25,6 +25,7 @@ def run(ctx):
     a_reference_match(ctx)
     a_presence_by_key(ctx)
     b_return_channel(ctx)
+    b_return_var_every_branch(ctx)
     c_context(ctx)
     c_no_module_state(ctx)
     a_single_evaluation(ctx)
@@ -474,6 +475,42 @@ def b_return_channel(ctx):
     ok = any(isinstance(c, ast.Call) and src(c.func) == "SpecOp" and any(k.arg == "return_var_name" and src(k.value) == "element.return_var_name" for k in c.keywords)
              and any(k.arg == "op" and src(k.value) == "'match'" for k in c.keywords) for c in ast.walk(ae))
     ctx.check("C08.b.return-channel", EXP, "_expand_await_element", "return variable forwarded", ok, "the awaited flow's Finished match carries the caller's return variable name", line=ae.lineno)
+
+
+def b_return_var_every_branch(ctx):
+    """`$x = await ...` / `$x = match ...` hand the expander an element with return_var_name set.  Every branch of the two expanders must either USE that name (forward it to the
+    generated match, or generate the assignment) or reject the statement: a branch that neither reads it nor raises compiles the statement into code that silently never assigns $x."""
+    te = ctx.tree.ast(EXP)
+    n = 0
+    for name in ("_expand_await_element", "_expand_match_element"):
+        fn = find_function(te, name)
+        if fn is None:
+            raise AnalysisError("%s not found in %s" % (name, EXP), anchor=name)
+        cfg = CFG(fn)
+        uses = [nd for nd in cfg.nodes if nd.ast is not None and nd.kind != "test" and not hasattr(nd.ast, "body")
+                and any(isinstance(a, ast.Attribute) and a.attr == "return_var_name" and isinstance(a.ctx, ast.Load) for a in ast.walk(nd.ast))]
+        n += len(uses)
+        base = {"element.return_var_name is not None": True, "element.return_var_name is None": False, "element.return_var_name": True}
+        ok = True
+        # SpecOp.spec is declared Union[Spec, dict]: the two cases are examined separately (a chain `if isinstance(.., Spec) .. elif isinstance(.., dict)` has no third way out)
+        for kind_facts in ({"isinstance(element.spec, Spec)": True, "isinstance(element.spec, dict)": False},
+                           {"isinstance(element.spec, Spec)": False, "isinstance(element.spec, dict)": True}):
+            facts = dict(base, **kind_facts)
+            # walk under the facts, stopping at uses and at raises
+            seen, stack = set(), [cfg.entry]
+            while stack:
+                x = stack.pop()
+                if x in seen or x in uses or x is cfg.raise_exit:
+                    continue
+                seen.add(x)
+                v = truth(x.ast, facts) if x.kind == "test" and isinstance(x.ast, ast.expr) else None
+                stack.extend(m for m, lab in x.succ if not (v is not None and lab in (True, False) and lab is not v))
+            ok = ok and cfg.exit not in seen
+        ctx.check("C08.b.return-var-every-branch", EXP, name, "return variable used or statement rejected on every branch", ok,
+                  "every way through %s with a return variable set either forwards/assigns it or raises ColangSyntaxError" % name if ok else
+                  "%s has a branch that returns its expansion without looking at element.return_var_name: `$x = %s <group>` is accepted and executed but $x is never assigned "
+                  "(it silently keeps its previous value)" % (name, "await" if "await" in name else "match"), line=fn.lineno)
+    ctx.floor("C08.b.return-var-every-branch", EXP, "statements that use element.return_var_name in the two expanders", n, 2)
 
 
 def c_context(ctx):
